@@ -54,12 +54,12 @@ def run_property(pid, tier, seed, replay, *, make_cases, judge, corr_filter=None
     """
     ck = Check(pid, tier, seed)
     rng = random.Random(seed)
-    pr = check_proofs(pid)
+    pr = check_proofs(pid, coqchk=(tier == "thorough"))
     for t in pr["theorems"]:
         ck.oblige("theorem " + t, pr["ok"], pr["failed"] or "")
     if not pr["theorems"]:
         ck.oblige("Properties/%s.v" % pid, False, pr["failed"] or "")
-    ck.assumptions = ["Print Assumptions: " + (", ".join(pr["assumptions"]) or "Closed under the global context (all theorems)")]
+    ck.assumptions = ["Print Assumptions: " + (", ".join(pr["assumptions"]) or "Closed under the global context (all theorems)")] + ([pr["coqchk"]] if pr.get("coqchk") else [])
     build_modelrun()
     build_harness("debug")
     profiles = profiles or (["debug", "release"] if tier == "thorough" else ["debug"])
